@@ -29,11 +29,17 @@ C4Start(b, i) == W(b, 16 + 2 * C4Seg(b) + 2 * (i - 1))
 C4Delta(b, i) == W(b, 16 + 4 * C4Seg(b) + 2 * (i - 1))
 C4RangePos(b, i) == 16 + 6 * C4Seg(b) + 2 * (i - 1)
 C4Range(b, i) == W(b, C4RangePos(b, i))
+(* "search for the first endCode that is greater than or equal to the character code" (OpenType, cmap format 4):
+   binary search, legitimate because Cmap4WF demands non-decreasing endCodes; returns n+1 when there is none *)
+RECURSIVE First4(_, _, _, _)
+First4(b, c, lo, hi) == IF lo >= hi THEN lo
+                        ELSE LET mid == (lo + hi) \div 2 IN
+                             IF C4End(b, mid) >= c THEN First4(b, c, lo, mid) ELSE First4(b, c, mid + 1, hi)
 Cmap4Lookup(b, c) ==
   LET n == C4Seg(b)
-      S == {i \in 1..n : C4End(b, i) >= c}
-  IN IF S = {} THEN 0
-     ELSE LET i == CHOOSE i \in S : \A j \in S : i <= j IN
+      i == First4(b, c, 1, n + 1)
+  IN IF i > n THEN 0
+     ELSE
        IF C4Start(b, i) > c THEN 0
        ELSE IF C4Range(b, i) = 0 THEN (c + C4Delta(b, i)) % 65536
        ELSE LET addr == C4RangePos(b, i) + C4Range(b, i) + 2 * (c - C4Start(b, i)) IN
@@ -45,17 +51,26 @@ Cmap4WF(b) ==
   /\ Len(b) >= 16 + 8 * n
   /\ C4End(b, n) = 65535
   /\ \A i \in 1..n : C4Start(b, i) <= C4End(b, i)
-  /\ \A i \in 1..(n - 1) : C4End(b, i) < C4Start(b, i + 1)
+  \* segments disjoint and increasing; named deviation SentinelAfterFFFF: when U+FFFF itself is mapped the closing
+  \* <<0xFFFF,0xFFFF,delta 1>> segment repeats endCode 0xFFFF (first-match lookup, HarfBuzz and FreeType all resolve it)
+  /\ \A i \in 1..(n - 1) : \/ C4End(b, i) < C4Start(b, i + 1)
+                           \/ i = n - 1 /\ C4End(b, i) = 65535 /\ C4Start(b, n) = 65535
   /\ W(b, 14 + 2 * n) = 0                                                \* reservedPad
   /\ LET p == 2 ^ Log2F(n) IN W(b, 8) = 2 * p /\ W(b, 10) = Log2F(n) /\ W(b, 12) = 2 * n - 2 * p
 
 (* formats 12 / 13: groups of <<startCharCode, endCharCode, startGlyphID>> *)
 C12N(b) == L(b, 12)
 C12Group(b, k) == LET p == 16 + 12 * (k - 1) IN <<L(b, p), L(b, p + 4), L(b, p + 8)>>
+(* groups are sorted by startCharCode and disjoint (Cmap12WF): binary search for the first group whose end >= c *)
+RECURSIVE First12(_, _, _, _)
+First12(b, c, lo, hi) == IF lo >= hi THEN lo
+                         ELSE LET mid == (lo + hi) \div 2 IN
+                              IF C12Group(b, mid)[2] >= c THEN First12(b, c, lo, mid) ELSE First12(b, c, mid + 1, hi)
 Cmap12Lookup(b, c, many) ==
-  LET S == {k \in 1..C12N(b) : C12Group(b, k)[1] <= c /\ c <= C12Group(b, k)[2]}
-  IN IF S = {} THEN 0
-     ELSE LET g == C12Group(b, CHOOSE k \in S : TRUE) IN IF many THEN g[3] ELSE g[3] + (c - g[1])
+  LET k == First12(b, c, 1, C12N(b) + 1)
+  IN IF k > C12N(b) THEN 0
+     ELSE LET g == C12Group(b, k) IN
+          IF g[1] > c THEN 0 ELSE IF many THEN g[3] ELSE g[3] + (c - g[1])
 Cmap12WF(b, fmt) ==
   /\ W(b, 0) = fmt /\ W(b, 2) = 0 /\ L(b, 4) = Len(b) /\ Len(b) = 16 + 12 * C12N(b)
   /\ \A k \in 1..C12N(b) : C12Group(b, k)[1] >= 0 /\ C12Group(b, k)[1] <= C12Group(b, k)[2]
